@@ -241,8 +241,8 @@ theorem insertDesc_perm (u : Utxo) (l : List Utxo) : (insertDesc u l).Perm (u ::
   | cons v r ih =>
     unfold insertDesc
     split
-    · exact List.Perm.refl _
     · exact (List.Perm.cons v ih).trans (List.Perm.swap u v r)
+    · exact List.Perm.refl _
 
 theorem sortDesc_perm (l : List Utxo) : (sortDesc l).Perm l := by
   induction l with
